@@ -39,6 +39,16 @@ CHECKS = {
         "note": "Trusts package unicode for rune classes, TLC, and the Go harness's recording. Exhaustive only up to the stated class-string length.",
         "technique": _TLC,
     },
+    "C20": {
+        "level": "model_checking",
+        "text": "InflectorCache.tla models the sync.Map/OnceValue memo protocol (one action per critical section) and TLC checks for every interleaving of the tier's "
+                "goroutines x keys x calls that each caller gets the function's value, the value is computed at most once per key and every caller returns (fairness). "
+                "Inflector.tla enumerates every irregular word x case style x prefix x boundary; each is replayed into Pluralize/Singularize and InflectorTrace.tla judges "
+                "totality, purity and the prefix law (out = prefix.boundary.alone_out). Concurrent rounds on a cold cache under the race detector are recorded as call/ret "
+                "events and judged against the memo contract and a cold sequential reference.",
+        "note": "Real goroutine schedules are sampled, not enumerated (only the protocol model covers all interleavings). Trusts the race detector, sync primitives, TLC.",
+        "technique": _TLC,
+    },
 }
 
 _PENDING = "check not built yet in this round - planned with the same TLA+ machinery (DESIGN.md section 6); not claimed until it runs green"
